@@ -31,7 +31,7 @@ pub fn sign_is_spec(M: usize, F: usize, A: usize) {
     let mut specb = [0u8; TX];
     let spec = &mut specb[..T];
     vspec::v4::public_sign(&scalar, &prefix, msg, b"", f, a, spec);
-    let sk = sk_of(&seed);
+    let sk = sk_of(&seed).clone(); // a clone is a key like any other: it must produce the same deterministic signature
     let r = <V4 as SealingVersion<Public>>::dangerous_seal_with_nonce(&sk, "", payload_of(msg), f, a);
     let ok = r.is_ok();
     let out = r.unwrap_or_default();
